@@ -269,7 +269,7 @@ def compare_model(ctx, reqs3, answers=None):
             unmodelled += 1
         elif m != i:
             texts = r.get("lines") or [r.get("line", "")]
-            if any(colcases.dontcare_numeric(p) or colcases.dontcare_uuid(p) for l in texts for f in l.split("\t") for p in [f] + f.split(";")):
+            if any(colcases.dontcare_numeric(p) or colcases.dontcare_uuid(p) for l in texts for f in l.rstrip("\r\n").split("\t") for p in [f] + f.split(";")):
                 dontcare += 1
             else:
                 keys = [k for k in sorted(set(m) | set(i)) if m.get(k) != i.get(k)]
